@@ -177,7 +177,14 @@ pub fn check_problem(p: &ProblemData, interp: &Interp, ht: bool, r: &mut Rng, or
 
 fn strong_case(cfg: &Config, idx: u64, r: &mut Rng, st: &mut Stats) {
     let so = StrongOpts { hostile_names: r.chance(1, 2), hostile_symbols: r.chance(1, 2), ..Default::default() };
-    let (l, rt) = gen_strong_with(r, so);
+    let (mut l, rt) = gen_strong_with(r, so);
+    if r.chance(1, 5) {
+        // a predicate of arity 10-12: the transition axiom has many (and multi-digit) variables
+        let n = 10 + r.upto(3);
+        let args: Vec<String> = (0..n).map(|i| format!("{}", i % 4)).collect();
+        l.push_str(&format!("\nbig({}) :- not s0.", args.join(",")));
+        st.inc("strong_tasks_with_large_arity_predicate");
+    }
     let (Ok(lp), Ok(rp)) = (parse_program(&l), parse_program(&rt)) else { return };
     let flags = Flags::random(r);
     let Built::Ok { problems, .. } = build_strong(&lp, &rp, r.chance(1, 2), flags) else { return };
